@@ -16,7 +16,7 @@ for d in sorted(glob.glob(os.path.join(V, 'seeded', '*'))):
     adv = name.startswith('adv')
     m['property'] = m.get('property', prop)
     m['id'] = name
-    m['round'] = 3 if adv else (6 if '-r6-' in name else (2 if '-r2-' in name else 1))
+    m['round'] = 3 if adv else (int(re.search(r'-r(\d+)-', name).group(1)) if re.search(r'-r(\d+)-', name) else 1)
     if adv:
         claimed = sorted(set(re.findall(r'C\d\d', str(m['property']))))
         prop = ' '.join(claimed)
